@@ -475,6 +475,15 @@ def r6(ctx):
                     if cr:
                         bad.append(('argument %d of %s' % (i, c['callee'].split('::')[-1]), c['line'], cr[0]))
             w = where(s.body, l['next']['line'])
+            # leaving the loop before the set is exhausted is order-independent only for a pure search (`return true` on the
+            # first hit): once the loop accumulates (checkers ^= .., pinned ^= .., pushes), WHICH squares were accumulated
+            # before the exit depends on the a1..h8 order
+            early = sorted({a for a, _ in loop_exits(s, l) if a not in ctrl_blocks(s, l)})
+            accs = [c for c in s.calls if c['blk'] in l['blocks'] and c['callee'] and c['callee'].split('::')[-1] in ACCUM]
+            if early and accs:
+                ctx.violation(R, key + ':early-exit', 'the loop over a square set accumulates (%s) and is left before the set is exhausted '
+                              '(exit from block(s) %s): what was accumulated depends on which squares precede the exit in a1..h8 order, '
+                              'which mirroring reverses' % (accs[0]['callee'].split('::')[-1], early), w)
             if bad:
                 what, line, x = bad[0]
                 nm = s.body.locals[x[2][1]].get('name') if isinstance(x[2], tuple) and x[2] and x[2][0] == 'l' else None
